@@ -122,6 +122,27 @@ def simplify_cfg(s):
 
 # ------------------------------------------------------------------ the simulation of one instance
 
+GLOBAL_GRIDS = ["GlobalTrapezoidalGrid", "GlobalLagrangeGrid2", "GlobalBSplineGrid3", "GlobalHighOrderGrid"]
+
+
+def make_global_grid(cfg):
+    """global grid families that run in the dimension-wise strategy in the pinned environment (Simpson, Romberg, balanced
+    Romberg and the modified Lagrange basis do not)"""
+    import numpy as np
+    import sparseSpACE.Grid as G
+    a, b = np.array(cfg["a"], dtype=float), np.array(cfg["b"], dtype=float)
+    name = cfg.get("grid", "GlobalTrapezoidalGrid")
+    if name == "GlobalTrapezoidalGrid":
+        return G.GlobalTrapezoidalGrid(a=a, b=b, modified_basis=cfg.get("modified_basis", False), boundary=cfg["boundary"])
+    if name == "GlobalLagrangeGrid2":
+        return G.GlobalLagrangeGrid(a=a, b=b, boundary=cfg["boundary"], p=2)
+    if name == "GlobalBSplineGrid3":
+        return G.GlobalBSplineGrid(a=a, b=b, boundary=cfg["boundary"], p=3)
+    if name == "GlobalHighOrderGrid":
+        return G.GlobalHighOrderGrid(a=a, b=b, boundary=cfg["boundary"])
+    raise ValueError(name)
+
+
 class DimwiseSim:
     strategy = "dimension_wise"
 
@@ -157,7 +178,7 @@ class DimwiseSim:
                             jump=(c["a"][0] + 0.3 * (c["b"][0] - c["a"][0])) if c.get("jump") else None,
                             offset=c.get("offset", 0.0))
         self.f = f
-        grid = GlobalTrapezoidalGrid(a=a, b=b, modified_basis=c.get("modified_basis", False), boundary=c["boundary"])
+        grid = make_global_grid(c)
         self.op = Integration(f=f, grid=grid, dim=c["dim"], reference_solution=None if reference is None else np.array(reference, dtype=float),
                               print_level=100, log_level=100)
         norm = np.inf if c.get("norm", "inf") == "inf" else c["norm"]
@@ -312,7 +333,7 @@ class StructureMonitor(Monitor):
         ben = [[float(o.benefit) for o in objs] for objs in conts]
         mx = max(max(bb) for bb in ben)
         mx = max(mx, 0.0)
-        margin = sim.sa.margin
+        margin = sim.cfg["margin"]     # what the caller configured, not what the object says it uses
         thr = mx * margin
         pred = []
         nsplit = 0
@@ -704,10 +725,21 @@ class ResultOracle:
         tot = np.zeros(sim.f.output_length())
         S = 0.0
         n = 0
+        other = sim.cfg.get("grid", "GlobalTrapezoidalGrid") != "GlobalTrapezoidalGrid"
         for cg in sim.sa.scheme:
             lv = tuple(int(x) for x in cg.levelvector)
-            coords, _, _ = sim.sa.get_point_coord_for_each_dim(lv)
-            v, sabs = rquad_component(sim.f, coords, sim.cfg["boundary"])
+            coords, levels, _ = sim.sa.get_point_coord_for_each_dim(lv)
+            if other:
+                # hierarchical / high-order rules: "the operation applied independently" = a fresh instance of the grid class
+                # set to the reported points and levels, and an un-cached twin of the integrand
+                from simcore.env import SimFunction
+                g = make_global_grid(sim.cfg)
+                g.set_grid(coords, levels)
+                f2 = SimFunction(sim.f.key, nnoise=sim.f.nnoise, probes=sim.f.probes, a=sim.f.a, b=sim.f.b, jump=sim.f.jump, offset=sim.f.offset)
+                v = np.asarray(g.integrate(f2, list(lv), sim.a, sim.b), dtype=float)
+                sabs = float(np.prod([np.sum(np.abs(np.asarray(w, dtype=float))) for w in g.weights])) * (2.0 + abs(sim.f.offset)) if hasattr(g, "weights") else 10.0
+            else:
+                v, sabs = rquad_component(sim.f, coords, sim.cfg["boundary"])
             tot += cg.coefficient * v
             S += abs(cg.coefficient) * sabs
             n += 1
